@@ -95,9 +95,32 @@ class Segment(object):
 
 
 class Decoded(object):
-    """Result of decode(); see the module docstring of the harness task for the
-    meaning of the attributes.  Attributes that could not be determined keep their
-    initial value (None / empty)."""
+    """Result of decode().  Attributes that could not be determined keep their
+    initial value (None / empty); `problems` says why.
+
+    version, is_micro, level, mask   read from the symbol (size, format information)
+    format_copies / version_copies   raw 15-bit / 18-bit words of each copy
+    codewords        all codewords in placement order after unmasking, exactly as
+                     read (never corrected); the 4-bit codeword of M1/M3 is given as
+                     its value shifted to the high nibble
+    remainder_bits   the bits after the last codeword, after unmasking
+    blocks           [(data codewords, ec codewords)] per RS block in ISO order
+                     (after correction when correct_errors was requested)
+    syndromes_ok     all syndromes of all blocks are zero AS READ
+    block_syndromes_ok, errors_corrected, uncorrectable_blocks   per-block detail
+    data_bits        data bit stream, len == iso.data_capacity_bits(version, level)
+    segments         list of Segment
+    sa               (m, n, parity): position m (1..16) of n (1..16) symbols, i.e.
+                     the stored 4-bit fields + 1 as ISO clause 8 defines them;
+                     sa_raw has the three fields exactly as stored
+    payload          concatenated data of the numeric/alphanumeric/byte/kanji/hanzi segments
+    end_of_data      bit offset after the last segment (None: parsing abandoned)
+    terminator_and_padding   {'terminator_bits', 'padding_bits', 'pad_codewords',
+                     'tail_ok', 'tail_errors', 'extra_zero_codeword'[, 'final_nibble']}
+    problems         every violation of the standard found (each entry starts with
+                     a class tag: size, module, function-pattern, format,
+                     version-info, remainder, rs, stream, internal)
+    """
 
     def __init__(self):
         self.size = None
@@ -483,7 +506,7 @@ def kanji_from_13bit(x):
     (E040..EBBF), then forms msb * 0xC0 + lsb.  -> (Shift JIS value, valid)"""
     w = ((x // 0xC0) << 8) | (x % 0xC0)
     sj = w + 0x8140 if w < 0x1F00 else w + 0xC140
-    lead, trail = sj >> 8, sj & 0xFF
+    trail = sj & 0xFF
     valid = ((0x8140 <= sj <= 0x9FFC or 0xE040 <= sj <= 0xEBBF)
              and 0x40 <= trail <= 0xFC and trail != 0x7F)
     return sj, valid
